@@ -1958,7 +1958,8 @@ def fam_KUSE(thorough):
     # a constant expression is typed like any other expression: arithmetic on byte constants is arithmetic in byte (context.get_common_type:
     # byte + byte -> byte), a value converted to float has single precision -- whatever the evaluated constant is used for
     kb = "const byte kb@ = 200;\nconst byte kc@ = 250;\n"
-    for name, e3, val in (("add", "(kb@ + kb@)", 144), ("mul", "(kb@ * kc@)", 80), ("sub", "(kb@ - kc@)", 206), ("cast-operands", "(cast<byte>(200) + cast<byte>(100))", 44), ("add-then-divide", "((kb@ + kc@) / 2)", 97)):
+    for name, e3, val in (("add", "(kb@ + kb@)", 144), ("mul", "(kb@ * kc@)", 80), ("sub", "(kb@ - kc@)", 206), ("cast-operands", "(cast<byte>(200) + cast<byte>(100))", 44), ("add-then-divide", "((kb@ + kc@) / 2)", 97),
+                          ("negate", "(-kb@)", 56), ("negate-cast", "(10 + -cast<byte>(3))", 263), ("negate-then-add", "(-kc@ + kb@)", 206)):
         for use, c3, c in (("int-constant", "const int k@ = %s;\nfunction int f@(int a) {\n  return (a + k@);\n}\n" % e3, "int f@(int a) { return (a + %d); }\n" % val),
                            ("global-initial-value", "var int g@ = %s;\nfunction int f@(int a) {\n  return (a + g@);\n}\n" % e3, "int g@ = %d;\nint f@(int a) { return (a + g@); }\n" % val),
                            ("array-size", "function int f@(int a) {\n  return (a + sizeof(byte[%s]));\n}\n" % e3, "int f@(int a) { return (a + %d); }\n" % val)):
